@@ -632,8 +632,13 @@ def ceval(expr: ast.AST, env: dict):
         if head[:1].isupper() and "." in d and d.count(".") == 1:  # Enum member, e.g. Closed.right
             return expr.attr
         raise Unknown(txt)
-    if isinstance(expr, (ast.Tuple, ast.List)) and not any(isinstance(x, ast.Starred) for x in expr.elts):
-        vals = [ceval(x, env) for x in expr.elts]
+    if isinstance(expr, (ast.Tuple, ast.List)):
+        vals = []
+        for x in expr.elts:
+            if isinstance(x, ast.Starred):
+                vals.extend(list(ceval(x.value, env)))
+            else:
+                vals.append(ceval(x, env))
         return tuple(vals) if isinstance(expr, ast.Tuple) else list(vals)
     if isinstance(expr, ast.Dict) and all(k is not None for k in expr.keys):
         return {ceval(k, env): ceval(v, env) for k, v in zip(expr.keys, expr.values)}
